@@ -162,6 +162,22 @@ def run(ck):
         ALPHA = B32_ALPHABET.encode("ascii")
         JUNK = b"0189=-_ \n\t\x00\xff.:/"
 
+        def only_padding_bits_differ(m, d):
+            """m has the canonical length for len(d) bytes and equals b2a(d) except in the padding bits."""
+            want = ref_b32encode(d)
+            if len(m) != len(want) or not m or m[:-1] != want[:-1] or m[-1:] not in ALPHA:
+                return False
+            pad = len(m) * 5 - len(d) * 8
+            return (ALPHA.index(m[-1:]) >> pad) == (ALPHA.index(want[-1:]) >> pad)
+
+        def classify(op, v, m, d):
+            if only_padding_bits_differ(m, d):
+                return ("violation", "base32-nonzero-padding-bits-accepted",
+                        "the last character carries non-zero padding bits (no b2a() output does); base32.py builds "
+                        "could_be_base32_encoded()'s last-character table to refuse exactly this but allows one bit "
+                        "too many, so a2b() hands the string to base64.b32decode which ignores the bits")
+            return ("violation", "base32-misread:" + op, "")
+
         def mutants(enc):
             n = len(enc)
             yield "uppercase-all", enc.upper()
@@ -184,7 +200,7 @@ def run(ck):
             yield "prepend-space", b" " + enc
             yield "append-nul", enc + b"\x00"
 
-        per_len = 6 if quick else 40
+        per_len = 6 if quick else 150
         for n in range(0, 65):
             for j in range(per_len):
                 if not mine():
@@ -199,7 +215,7 @@ def run(ck):
                 for op, m in mutants(enc):
                     if m == enc:
                         continue
-                    r = judge("base32", op, v, m, base32.a2b, base32.b2a)
+                    r = judge("base32", op, v, m, base32.a2b, base32.b2a, classify)
                     # the predicate and the decoder must agree on what is acceptable
                     try:
                         cb = bool(base32.could_be_base32_encoded(m))
@@ -208,8 +224,12 @@ def run(ck):
                     strict = ref_b32decode(m)
                     ck.mon("could_be-oracle")
                     if cb and strict is None:
-                        ck.violation("base32-could_be-accepts-malformed", "could_be_base32_encoded() is True for a "
-                                     "string that is not a canonical base32 encoding", {"m": m})
+                        if all(bytes([c]) in ALPHA for c in m) and len(m) % 8 in (0, 2, 4, 5, 7):
+                            # predicate, not a decoder: the consequence is judged through a2b above
+                            ck.observe("could_be_base32_encoded-true-for-nonzero-padding-bits")
+                        else:
+                            ck.violation("base32-could_be-accepts-malformed", "could_be_base32_encoded() is True for a "
+                                         "string with a byte outside the alphabet or an impossible length", {"m": m})
                     if not cb and strict is not None:
                         ck.violation("base32-could_be-rejects-valid", "could_be_base32_encoded() is False for a "
                                      "canonical encoding", {"m": m})
@@ -234,8 +254,13 @@ def run(ck):
                     d = None
                     ck.hit("rejects:base32")
                 if d is not None and strict is None:
-                    ck.violation("base32-accepts-noncanonical", "a2b accepted a string that is not a canonical "
-                                 "encoding of any value", {"s": s, "decoded": d})
+                    if only_padding_bits_differ(s, d):
+                        # an alias of the canonical spelling of d: DESIGN §2 leaves lenient spellings of the same
+                        # value open; the mutation oracle above decides the mechanism
+                        ck.skip("base32-enum-alias-with-nonzero-padding-bits")
+                    else:
+                        ck.violation("base32-accepts-noncanonical", "a2b accepted a string that is not an encoding "
+                                     "of any value", {"s": s, "decoded": d})
                 elif d is not None and d != strict:
                     ck.violation("base32-roundtrip-mismatch", "a2b(s) differs from the RFC 3548 value", {"s": s, "decoded": d})
                 elif d is None and strict is not None:
@@ -274,7 +299,7 @@ def run(ck):
             yield "append-space", enc + b" "
             yield "prepend-space", b" " + enc
 
-        per_len = 5 if quick else 30
+        per_len = 5 if quick else 120
         for n in range(0, 65):
             for j in range(per_len):
                 if not mine():
@@ -334,7 +359,7 @@ def run(ck):
             i = rng.randrange(len(m))
             yield "flip-random-byte", m[:i] + bytes([m[i] ^ (1 << rng.randrange(8))]) + m[i + 1:]
 
-        n_cases = 500 if quick else 5000
+        n_cases = 500 if quick else 30000
         for i in range(n_cases):
             if not mine():
                 continue
@@ -452,27 +477,61 @@ def run(ck):
                 pos = end + 1
             return out
 
-        def classify(op, v, m, d):
-            ps = pieces_of(m)
-            if ps is not None:
-                keys = [p.split(b":", 1)[0] for p in ps]
-                if len(set(keys)) != len(keys):
-                    return ("violation", "ueb-duplicate-key-last-wins",
-                            "URI-extension.rst: 'This block is a serialized dictionary ... sort all the keys "
-                            "lexicographically; for k in keys: write(...)' -- a block that carries the same key twice "
-                            "is not a serialized dictionary, unpack_extension silently keeps the last occurrence")
+        def faithful(m):
+            """Lenient-but-faithful reading of m: python int() spellings allowed for lengths and integer
+            fields, every byte accounted for.  Returns list of (key, value) or None."""
+            out = []
+            pos = 0
+            while pos < len(m):
+                c1 = m.find(b":", pos)
+                c2 = m.find(b":", c1 + 1) if c1 >= 0 else -1
+                if c1 < 0 or c2 < 0:
+                    return None
                 try:
-                    re_enc = uri.pack_extension(d)
-                except Exception:  # noqa
-                    re_enc = None
-                if re_enc is not None and sorted(pieces_of(re_enc) or []) == sorted(ps):
-                    return ("skip", "ueb-unsorted-keys-accepted", "")
-                import re as _re
-                if any(not _re.match(br'^[a-zA-Z_\-]+\Z', kk) for kk in keys):
-                    return ("skip", "ueb-unencodable-key-name-passed-through", "")
-                # int fields spelled non-canonically but denoting the value pack_extension would write
-                return ("skip", "ueb-noncanonical-integer-spelling", "")
-            return ("skip", "ueb-noncanonical-length-spelling", "")
+                    ln = int(m[c1 + 1:c2])
+                except ValueError:
+                    return None
+                end = c2 + 1 + ln
+                if ln < 0:
+                    return "negative-length"
+                if end >= len(m) or m[end:end + 1] != b",":
+                    return None
+                out.append((m[pos:c1], m[c2 + 1:end]))
+                pos = end + 1
+            return out
+
+        def classify(op, v, m, d):
+            import re as _re
+            fr = faithful(m)
+            if fr == "negative-length":
+                return ("violation", "ueb-negative-length-accepted",
+                        "a negative length field is used as a python slice index: value = data[:length], and the "
+                        "separator check data[length:length+1] == b',' succeeds whenever some comma sits |length| bytes "
+                        "before the end of the block, so the field swallows or drops following fields")
+            if fr is None:
+                return ("violation", "ueb-misread:" + op, "the bytes cannot be split into key:length:value, pieces at all")
+            keys = [k for k, _ in fr]
+            if len(set(keys)) != len(keys):
+                return ("violation", "ueb-duplicate-key-last-wins",
+                        "URI-extension.rst: 'This block is a serialized dictionary ... sort all the keys "
+                        "lexicographically; for k in keys: write(\"%s:\" % k); write(netstring(data[k]))' -- a block "
+                        "that carries the same key twice is not a serialized dictionary; unpack_extension silently "
+                        "keeps the last occurrence")
+            try:
+                want = {}
+                for k, val in fr:
+                    ks = k.decode("utf-8")
+                    want[ks] = int(val) if ks in INTKEYS else val
+            except ValueError:
+                return ("violation", "ueb-misread:" + op, "a field that cannot be read faithfully was accepted")
+            if want != d:
+                return ("violation", "ueb-misread:" + op, "the decoded dictionary is not what the bytes say")
+            # a faithful reading of a non-canonical spelling of another dictionary: left open by the statement
+            if any(not _re.match(br'^[a-zA-Z_\-]+\Z', k) for k in keys):
+                return ("skip", "ueb-unencodable-key-name-passed-through", "")
+            if keys != sorted(keys):
+                return ("skip", "ueb-unsorted-keys-accepted", "")
+            return ("skip", "ueb-lenient-number-spelling-of-another-value", "")
 
         def eq(d, v):
             return d == {str(k): val for k, val in v.items()}
@@ -495,6 +554,13 @@ def run(ck):
             yield "length-space", rebuild(key + b": " + num + b":" + rest)
             yield "length-negative", rebuild(key + b":-" + num + b":" + rest)
             yield "length-empty", rebuild(key + b"::" + rest)
+            # directed at value = data[:length] / data[length:length+1] == b',' with a negative length:
+            # choose -N so that a comma sits N bytes before the end of the block
+            tail = rest + post
+            commas = [j for j in range(len(tail) - 1) if tail[j:j + 1] == b","]
+            if commas:
+                j = rng.choice(commas)
+                yield "length-negative-aligned", rebuild(key + b":-%d:" % (len(tail) - j) + rest)
             yield "length-huge", rebuild(key + b":" + b"9" * 25 + b":" + rest)
             yield "drop-comma", rebuild(key + b":" + num + b":" + val)
             yield "comma-replaced", rebuild(key + b":" + num + b":" + val + b";")
@@ -527,7 +593,7 @@ def run(ck):
                                  ("int-negative", b"-" + qv)):
                     yield name, b"".join(ps[:qi]) + qk + b":" + str(len(nv)).encode() + b":" + nv + b"," + b"".join(ps[qi + 1:])
 
-        n_cases = 300 if quick else 3000
+        n_cases = 300 if quick else 15000
         for i in range(n_cases):
             if not mine():
                 continue
@@ -578,7 +644,7 @@ def run(ck):
         EXPIRIES = [0, 1, 2 ** 31 - 1, 2 ** 31, U32 - 1, U32, 1_700_000_000, 1_700_000_000 + 31 * 86400]
         ser = {("immutable", 1): lease_schema.v1_immutable, ("immutable", 2): lease_schema.v2_immutable,
                ("mutable", 1): lease_schema.v1_mutable, ("mutable", 2): lease_schema.v2_mutable}
-        n_cases = 400 if quick else 4000
+        n_cases = 400 if quick else 30000
         for i in range(n_cases):
             if not mine():
                 continue
@@ -587,6 +653,8 @@ def run(ck):
             owner = rng.choice(OWNERS + [rng.randint(0, U32)])
             expiry = rng.choice(EXPIRIES + [rng.randint(0, U32)])
             renew, cancel, nodeid = rb(32), rb(32), rb(20)
+            if renew == cancel:
+                cancel = bytes([cancel[0] ^ 1]) + cancel[1:]
             try:
                 li = LeaseInfo(owner, renew, cancel, expiry, nodeid)
             except Exception as e:  # noqa
@@ -684,7 +752,7 @@ def run(ck):
             def log(self, *a, **k):
                 return None
 
-        n_cases = 40 if quick else 300
+        n_cases = 40 if quick else 1500
         for i in range(n_cases):
             if not mine():
                 continue
@@ -736,9 +804,15 @@ def run(ck):
                             sample=dict(wit, header=raw[:12]) if i == 0 else None)
 
                     def imm_decode(path):
+                        # what a reader of the share gets: constructor, length, data; the lease list is a
+                        # separate consumer (expirer) and may fail on its own
                         s = ShareFile(path)
-                        return (s._schema.version, s.get_length(), s.read_share_data(0, 10 ** 6),
-                                [(L.owner_num, L.get_expiration_time()) for L in s.get_leases()])
+                        head = (s._schema.version, s.get_length(), s.read_share_data(0, 10 ** 6))
+                        try:
+                            ls = [(L.owner_num, L.get_expiration_time()) for L in s.get_leases()]
+                        except (OSError, struct.error):
+                            ls = "unreadable"
+                        return head + (ls,)
                     v = (ver, size, data, [(L.owner_num, L.get_expiration_time()) for L in leases])
 
                     def imm_judge(op, newraw, classify=None):
@@ -906,3 +980,16 @@ def run(ck):
     ck.exhaustive = False
     ck.assumptions.append("a decoded value that re-encodes to the mutated bytes is a legitimate reading of those bytes")
     ck.assumptions.append("python is not run with -O: several decoders reject malformed input with assert (counted as observations)")
+
+
+# MUST_CATCH (scratch copies under /var/tmp, VF_REPO=..., quick tier; "caught" = a violation key that the
+# unchanged tree does not produce)
+#  1. util/netstring.netstring: length written as len(s) % 1000                    -> caught (netstring-encoding-differs)
+#  2. util/netstring.split_netstring: the `assert data[position] == b","` removed  -> MISSED by design: every such
+#     input still decodes to the encoded value, which DESIGN §5 C38 counts as a lenient accept, not a violation
+#  3. util/base32.a2b: precondition(could_be_base32_encoded) removed               -> caught (base32-misread:nonalphabet-char, base32-accepts-noncanonical)
+#  4. storage/lease.to_immutable_data: expiry & 0x7fffffff                         -> caught (lease-roundtrip-mismatch, lease-layout-differs, ...)
+#  5. uri.unpack_extension: 'num_segments' dropped from the integer keys           -> caught (ueb-roundtrip-mismatch, ueb-misread:*)
+#  6. storage/immutable_schema.schema_from_version: unknown version -> newest      -> caught (immutable-header-misread:unknown-version-3 ...)
+#  7. storage/lease_schema v2: cancel secret stored in clear                       -> caught (lease-layout-differs, *-container-roundtrip-mismatch)
+#  8. storage/lease.to_mutable_data: owner_num & 0xffffffff                        -> caught (lease-field-out-of-range-wraps)
